@@ -112,6 +112,11 @@ func (c *Ctx) Violate(v Violation) {
 	if n < 50 {
 		c.Sum.Violations = append(c.Sum.Violations, v)
 	}
+	if n < 3 && c.Out != "" {
+		// kept on disk at once: if the implementation later takes the whole process down (fatal runtime error, e.g.
+		// concurrent map writes), the failing input found so far is still reported
+		_ = WriteJSON(filepath.Join(c.Out, "violations_partial.json"), c.Sum.Violations)
+	}
 }
 
 // CorrInit declares the Coq module (e.g. "Texel.Corr.C17") whose `mismatches` evaluates the cases.
